@@ -163,10 +163,38 @@ ModelConst(ev, c, fl, name) ==         \* _cffi_check_int only with a check_valu
   IF <<"k", name>> \in fl \/ variant = "nocheckint" THEN "ok" ELSE IF ev.kc[name] # c.kc[name] THEN "error" ELSE "ok"
 ModelEnumerator(ev, c, tag, i) == "ok"   \* _generate_cpy_enum_decl: no check_value; the compiler's value
 
+(* An integer constant used as an array length in a run-time type string, ffi.typeof("char[K]") /
+   sizeof / new (parse_c_type.c:parse_sequel, case TOK_IDENTIFIER): the same clause as lib.K - an
+   error iff the checked value disagrees with the C value - otherwise the length is the C value.
+   Only small non-negative C values are constrained (a negative or huge value is no array length). *)
+SmallLen(v) == ~IsNeg(v) /\ Len(v) <= 9
+IdealLen(ev, c, fl, name) ==
+  IF IdealConst(ev, c, fl, name) = "error" THEN <<"error">>
+  ELSE IF SmallLen(c.kc[name]) THEN <<"ok", c.kc[name]>> ELSE <<"any">>
+IdealEnLen(ev, c, tag, i) ==
+  IF IdealEnumerator(ev, c, tag, i) = "error" THEN <<"error">>
+  ELSE IF SmallLen(c.en[tag].vals[i]) THEN <<"ok", c.en[tag].vals[i]>> ELSE <<"any">>
+(* the implementation: the generated getter returns bit 0 = "value <= 0", bit 1 = "the cdef
+   disagrees" (only where a check_value was generated), and parse_sequel accepts
+   neg == 0 || value == 0, refuses neg == 1 ("expected a positive integer constant") and
+   otherwise reports the disagreement.  So a disagreeing constant whose C value is 0 is accepted
+   as length 0.  Variant "lenmaskbit" tests only bit 0 (!(neg & 1)): every positive disagreeing
+   value is accepted. *)
+ModelLenOf(cv, mism) ==
+  IF cv = "0" THEN <<"ok", "0">>
+  ELSE IF ~IsNeg(cv) /\ (~mism \/ variant = "lenmaskbit") THEN (IF SmallLen(cv) THEN <<"ok", cv>> ELSE <<"any">>)
+  ELSE <<"error">>
+ModelLen(ev, c, fl, name) == ModelLenOf(c.kc[name], ModelConst(ev, c, fl, name) = "error")
+ModelEnLen(ev, c, tag, i) == ModelLenOf(c.en[tag].vals[i], FALSE)          \* enumerators carry no check
+LenZeroClass(ev, c, fl, name) == IdealConst(ev, c, fl, name) = "error" /\ c.kc[name] = "0"
+
 ApiBad(ev, c, fl, strict) ==
   {<<"su", KeyStr(key)>> : key \in {key \in DOMAIN ev.su :
         IdealSU(ev, c, fl, key) # "any" /\ ModelSU(ev, c, fl, key) # IdealSU(ev, c, fl, key)}}
   \cup {<<"k", n>> : n \in {n \in DOMAIN ev.kc : ModelConst(ev, c, fl, n) # IdealConst(ev, c, fl, n)}}
+  \cup {<<"len", n>> : n \in {n \in DOMAIN ev.kc : /\ IdealLen(ev, c, fl, n) # <<"any">> /\ ModelLen(ev, c, fl, n) # <<"any">>
+                                                    /\ ModelLen(ev, c, fl, n) # IdealLen(ev, c, fl, n)
+                                                    /\ (strict \/ ~LenZeroClass(ev, c, fl, n))}}
   \cup (IF strict THEN UNION {{<<"en", ev.en[g].names[i]>> : i \in {i \in DOMAIN ev.en[g].vals :
                                    ModelEnumerator(ev, c, g, i) # IdealEnumerator(ev, c, g, i)}} : g \in DOMAIN ev.en}
         ELSE {})
